@@ -319,8 +319,8 @@ func ruleCountShortcut(c *Ctx) {
 			}
 			c.check(okIdx, base+"→counter-matches-index", st.Pos(), fmt.Sprintf("shortcut uses %s and the fallback iterates %v", counter, sortedKeys(iters)),
 				fmt.Sprintf("the COUNT shortcut answers from %s() but the fallback iterates %v, which visits a different set of objects", counter, sortedKeys(iters)))
-			// (b) guard
-			facts := fg.DominatingFacts(l)
+			// (b) guard (a named part of it — unfiltered := len(…) == 0 && … — counts as what it names)
+			facts := expandBoolLocals(info, fn.Decl.Body, fg.DominatingFacts(l))
 			has := func(pred func(f Fact) bool) bool {
 				for _, f := range facts {
 					if pred(f) {
